@@ -871,6 +871,35 @@ fn gen_case(family: &str, r: &mut Rng) -> Case {
             let cnt = input.chars().count() + 2;
             Case { family: family.into(), modes: vec![ModeSpec { name: "M0".into(), pats, trans: vec![] }], input, start_offset: 0, ops: vec![Op::Next; cnt], with_positions: false }
         }
+        "la_compete" => {
+            // competing trailing contexts (C04 / C05): every pattern is a prefix of one word (its last character possibly generalised), its lookahead is built
+            // from the characters that follow that prefix (literal, repeated, class, optional tail) - many candidates at one position whose extents
+            // (own bytes + longest lookahead match) differ by little; token types are pairwise distinct
+            let alpha: &[char] = if r.below(4) == 0 { &['a', 'b', 'é'] } else { &['a', 'b', 'c'] };
+            let len = 2 + r.below(5);
+            let w: Vec<char> = (0..len).map(|_| { let c = *r.pick(alpha); if r.below(3) == 0 { 'b' } else { c } }).collect();
+            let np = 2 + r.below(3);
+            let mut pats: Vec<PatSpec> = vec![];
+            for i in 0..np {
+                let k = 1 + r.below(len);
+                let mut p: String = w[..k].iter().collect();
+                match r.below(5) { 0 => p.push('+'), 1 => { p.pop(); p.push_str("[abcé]"); } 2 => { p.push_str("b?"); } _ => {} }
+                let rest: Vec<char> = w[k..].to_vec();
+                let la = if rest.is_empty() || r.below(3) == 0 { if r.below(4) == 0 { Some((false, r.pick(&["a", "b", "c", "b+"]).to_string())) } else { None } } else {
+                    let m = 1 + r.below(rest.len().min(3));
+                    let mut l: String = rest[..m].iter().collect();
+                    match r.below(6) { 0 => l.push('+'), 1 => l.push('?'), 2 => { l = format!("{}+", rest[0]); } 3 => { l = "[abc]+".into(); } 4 => { l.push_str("c?"); } _ => {} }
+                    Some((r.below(5) != 0, l))
+                };
+                pats.push(PatSpec { p, tt: i, la });
+            }
+            let mut input: String = w.iter().collect();
+            for _ in 0..r.below(3) { input.push(*r.pick(alpha)); }
+            let start = if r.below(6) == 0 { 1.min(input.len()) } else { 0 };
+            let start = if input.is_char_boundary(start) { start } else { 0 };
+            let n = input.chars().count() + 2;
+            Case { family: family.into(), modes: vec![ModeSpec { name: "M0".into(), pats, trans: vec![] }], input, start_offset: start, ops: vec![Op::Next; n], with_positions: false }
+        }
         "modes" | "peek" | "offset" | "isolation" => {
             let nm = 1 + r.below(4);
             let mut modes = vec![];
